@@ -525,9 +525,12 @@ fn elaborate(w: &mut World, repos: &mut Repos, input: &str) -> (String, Outcome)
             }
         }
         if a["revisions"][after.current.to_string()]["state"].as_str() != Some("accepted") {
-            // release builds only `debug_assert!` against two `Revision` actions in one op (see
-            // corpus/C04/double-revision.case and `overwrite_counterexample`): observation, not a violation
-            o.tags.push("double-revision-overwrites-current".into());
+            // the current revision was replaced in place (two `Revision` actions in one op, fixed by
+            // a66814b "reject identity operations that contain more than one revision")
+            o.violations.push((
+                "double-revision-overwrites-current".into(),
+                format!("op {k}: the current revision is not in state accepted afterwards"),
+            ));
         }
         // 2. the current revision is never redacted or edited
         let cur0 = before.current.to_string();
